@@ -96,5 +96,5 @@ func (torsor *Torsor) Equals(other *Torsor) bool {
 
 // String representation of the torsor.
 func (torsor *Torsor) String() string {
-	return fmt.Sprintf("{%f %f %f}", torsor.fx, torsor.fy, torsor.mz)
+	return fmt.Sprintf("{%v %v %v}", torsor.fx, torsor.fy, torsor.mz)
 }
